@@ -34,6 +34,19 @@ def alphabet(which, data):
     def st(pairs, outl=()):
         return (fs((fs(b), fs(p) if p is not None else None) for b, p in pairs), fs(outl))
 
+    if which == 3:
+        # two outliers: the same tree recurs with its outlier list stored in another order (the samplers re-add data points in permutation order)
+        a = st([((0,), None), ((1,), None)], outl=(2, 3))
+        b = st([((0,), None), ((1,), (0,))], outl=(2, 3))
+        A = oracle.build(a, data)
+        A2 = oracle.build(a, data, reverse_siblings=True)
+        for dp in list(A2.outliers):
+            A2.remove_data_point_from_outliers(dp)
+        for dp in sorted(data, key=lambda d: -d.idx):
+            if dp.idx in (2, 3):
+                A2.add_data_point_to_outliers(dp)
+        A2.relabel_nodes()
+        return [("A", A, a), ("A'", A2, a), ("B", oracle.build(b, data), b)]
     if which == 0:
         a = st([((0,), None), ((1,), (0,)), ((2,), None)])
         b = st([((0, 1), None), ((2,), (0, 1))])
@@ -74,7 +87,7 @@ def case(item):
     which, seqs = item
     from phyclone.process_trace import write_map_results, write_topology_report
 
-    data = traces.named_data(4 if which == 2 else 3, grid=3, outlier_prob=0.2)
+    data = traces.named_data(4 if which in (2, 3) else 3, grid=3, outlier_prob=0.2)
     alpha = alphabet(which, data)
     syms = [(t, s) for t in range(len(alpha)) for s in range(2)]
     out = {"item": (which, len(seqs)), "problems": [], "n": 0, "distinct": 0}
@@ -207,14 +220,14 @@ def all_cases(tier):
 def main(tier, seed):
     chk = Check("C11", tier, seed)
     chk.rule = ("every trace with <=3 chains and <=3 (4) entries: every sequence over 3 trees (A, A' = A built/labelled differently, B) x 2 scores, every split "
-                "over the chains, EVERY chain insertion (= completion) order, two tree alphabets (second with an outlier); written by create_main_run_output, "
+                "over the chains, EVERY chain insertion (= completion) order, three tree alphabets (second with an outlier, third with two outliers stored in different orders); written by create_main_run_output, "
                 "summarised by map (both modes) and topology-report (top_trees 1, 2, all); reference: Counter over abstract trees; non-trivial = trace with >= 2 distinct trees")
     chk.assumptions = ["ties: any maximiser accepted", "the MAP tree is identified by decoding table + Newick"]
     cases = all_cases(tier)
     items = []
     chunk = 40
-    for which in (0, 1):
-        cs = cases if (tier == "thorough" or which == 0) else cases[::3]
+    for which in (0, 1, 3):
+        cs = cases if (tier == "thorough" or which == 0) else cases[(which % 3)::3]
         for i in range(0, len(cs), chunk):
             items.append((which, cs[i:i + chunk]))
     # long traces with many distinct topologies
